@@ -189,6 +189,13 @@ async def _main(case, obs, loop, net):
         pl.next_offset = pl.log_start
         install_batches(pl, lg["batches"])
         pl.hw_lag = lg.get("hw_lag", 0)
+        fo = lg.get("follower")
+        if fo:
+            # KIP-392 follower reads: the leader names this node to clients that send a rack id; the follower's own
+            # retention may be ahead of the leader's (it then answers OFFSET_OUT_OF_RANGE for offsets the leader has)
+            pl.read_replica = fo["node"] % cl["nodes"]
+            top = min(pl.hw, pl.lso)
+            pl.follower_start = pl.log_start + int(fo["start_frac"] * (top - pl.log_start))
         tps.append(TopicPartition(lg["topic"], lg["partition"]))
     obs.consumer_tps = [(t.topic, t.partition) for t in tps]
     pl0 = c.log(tps[0].topic, tps[0].partition)
@@ -233,6 +240,8 @@ async def _main(case, obs, loop, net):
               fetch_max_wait_ms=cfg.get("fetch_max_wait_ms", 100), fetch_max_bytes=cfg.get("fetch_max_bytes", 52428800),
               request_timeout_ms=cfg.get("request_timeout_ms", 400), retry_backoff_ms=cfg.get("retry_backoff_ms", 20),
               metadata_max_age_ms=cfg.get("metadata_max_age_ms", 2000), max_poll_records=cfg.get("max_poll_records"))
+    if cfg.get("client_rack"):
+        kw["client_rack"] = cfg["client_rack"]
     df = cfg.get("deser_fail")
     if df:
         # the application's value deserializer raises the first time it sees certain records (a poison message that
